@@ -35,7 +35,7 @@ for i in sorted(os.listdir(sd)):
     needs = m.get("needs", "").replace("|", "/").replace("\n", " ")
     cb = "; ".join(m.get("caught_by", [])).replace("|", "/").replace("\n", " ")
     rows.append(f"| {i} | {needs[:400]} | {cb[:400]} |")
-    if "MISSED" in cb:
+    if "missed" in cb.lower():
         first_missed.append(i)
 rows.append("")
 rows.append(f"{len(os.listdir(sd))} changes stored. First MISSED and then caught after the check was strengthened: "
